@@ -115,6 +115,8 @@ type exec struct {
 	ncall   map[string]int
 	token   *int
 	retSite int
+	yield   uint64 // 0 = no perturbation
+	ycount  uint64
 }
 
 var curp atomic.Pointer[exec]
@@ -180,6 +182,21 @@ func MarkG(line int) {
 	e.mu.Lock()
 	e.log(Event{Ev: "GRet", Site: line})
 	e.mu.Unlock()
+}
+
+// Yield is inserted by the harness in front of every statement of the instrumented copy of the generated file.  It
+// perturbs the schedule between two gates (which goroutine reaches its select or close first), seeded per execution,
+// so that interleavings finer than provider entry/exit are sampled on the real code too.
+func Yield() {
+	e := curp.Load()
+	if e == nil || e.yield == 0 {
+		return
+	}
+	n := atomic.AddUint64(&e.ycount, 1)
+	x := (n*2654435761 + e.yield) % 7
+	for i := uint64(0); i < x%3; i++ {
+		runtime.Gosched()
+	}
 }
 
 // Term builds the symbolic result term of provider p, result index k.
@@ -449,11 +466,15 @@ func classify(err error, provs map[string]bool) string {
 }
 
 var leaked = map[int]bool{}
+var yieldSeed uint64
 
 // runOne executes the injector once, following prefix and then choosing by pick.
 func runOne(cfg *Config, tr int, mode string, prefix []string, pick func(opts []string) string) runOut {
 	tok := new(int)
 	e := &exec{tr: tr, gates: map[string]*gate{}, ncall: map[string]int{}, token: tok}
+	if yieldSeed != 0 {
+		e.yield = yieldSeed + uint64(tr)*7919
+	}
 	curp.Store(e)
 	base, cancel := context.WithCancel(context.Background())
 	ctx := context.WithValue(base, ctxKey{}, tok)
@@ -685,6 +706,9 @@ func Main(cfg Config) {
 		seed, _ = strconv.ParseInt(s, 10, 64)
 	}
 	rng := rand.New(rand.NewSource(seed))
+	if os.Getenv("VERIF_YIELD") != "" {
+		yieldSeed = uint64(seed)*1000003 + 17
+	}
 	modes := []string{"none", "fail", "cancel", "failcancel"}
 	if s := os.Getenv("VERIF_MODES"); s != "" {
 		modes = strings.Split(s, ",")
